@@ -112,3 +112,59 @@ Theorem C14_binding_print_parse_roundtrip : forall names e, wf e -> forall rest,
   ExprParse.binding false (sx_core names e ++ 125%N :: 125%N :: rest) = (Some e, rest).
 Proof. intros names e H rest. exact (print_parse_binding names num_roundtrip z_to_str_head e H rest). Qed.
 Print Assumptions C14_binding_print_parse_roundtrip.
+
+(* ---- values: what the stringifier prints for a parsed value is read back as that value ----
+   The value parser (Value::parse_until_before: static pieces with character references, bindings,
+   and the chain it builds from them) inverts the value printer (escape_html_body for static values,
+   split_expression for dynamic ones), for every entity table that knows &lt; &quot; &amp; and for both
+   callers' `until` predicates (`<` for text, the closing double quote for attribute values):
+   - static text of any content;
+   - one binding with any well-formed expression that is not made of string literals only;
+   - any alternation of non-empty text pieces and bindings (no two texts adjacent), which is exactly the
+     shape the parser builds, with the brace-escaping of a text piece in front of a binding. *)
+From GE Require Import Proofs.ValueRoundTrip.
+
+Lemma stop_text_ok : forall c x, stop_text (c :: x) = true -> c = 60%N \/ c = 34%N.
+Proof.
+  intros c x H. left. destruct (N.eq_dec c 60) as [E|E]; [exact E|]. exfalso.
+  destruct c as [|p]; [discriminate H|].
+  do 7 (try (destruct p as [p|p|]; try (cbn in H; discriminate H))). congruence.
+Qed.
+Lemma stop_quote_ok : forall c x, stop_quote 34 (c :: x) = true -> c = 60%N \/ c = 34%N.
+Proof. intros c x H. right. unfold stop_quote in H. apply N.eqb_eq in H. exact H. Qed.
+
+Theorem C14_mixed_value_roundtrip : forall names named stop,
+  named e_lt = Some [60%N] -> named e_quot = Some [34%N] -> named e_amp = Some [38%N] ->
+  (forall c x, stop (c :: x) = true -> c = 60%N \/ c = 34%N) ->
+  forall p q rest tail, valid (p :: q :: rest) -> first_ok (p :: q :: rest) -> tail_ok stop tail ->
+  parse_value named stop (sx_value names (chain_rev (rev (p :: q :: rest))) ++ tail)
+  = (RD (chain_rev (rev (p :: q :: rest))) true, tail).
+Proof. intros names named stop H1 H2 H3 H4 p q rest tail Hv Hf Ht. exact (mixed_value_roundtrip names named H1 H2 H3 stop H4 p q rest tail Hv Hf Ht). Qed.
+Print Assumptions C14_mixed_value_roundtrip.
+
+Theorem C14_static_value_roundtrip : forall (names : nat -> str) named stop,
+  named e_lt = Some [60%N] -> named e_quot = Some [34%N] -> named e_amp = Some [38%N] ->
+  (forall c x, stop (c :: x) = true -> c = 60%N \/ c = 34%N) ->
+  forall v tail, tail_ok stop tail -> parse_value named stop (escape_html_body v ++ tail) = (RS v, tail).
+Proof. intros names named stop H1 H2 H3 H4. exact (static_value_roundtrip names named H1 H2 H3 stop H4). Qed.
+Print Assumptions C14_static_value_roundtrip.
+
+Theorem C14_single_binding_value_roundtrip : forall names named stop,
+  named e_lt = Some [60%N] -> named e_quot = Some [34%N] -> named e_amp = Some [38%N] ->
+  (forall c x, stop (c :: x) = true -> c = 60%N \/ c = 34%N) ->
+  forall e tail, wf e -> is_text_piece e = false -> tail_ok stop tail ->
+  parse_value named stop (sx_value names e ++ tail) = (RD e false, tail).
+Proof. intros names named stop H1 H2 H3 H4. exact (single_binding_roundtrip names named H1 H2 H3 stop H4). Qed.
+Print Assumptions C14_single_binding_value_roundtrip.
+
+(* both callers' predicates meet the hypothesis; a mixed value in a text node, computed *)
+Example C14_value_roundtrip_example :
+  let named := fun e => if str_eqb e e_lt then Some [60%N] else if str_eqb e e_quot then Some [34%N]
+                        else if str_eqb e e_amp then Some [38%N] else None in
+  let ps := [PText (lit "a<{"); PBind (EBin BAdd (EField (lit "x")) (EInt 1)); PBind (EField (lit "y")); PText (lit "{ & ""q""")] in
+  valid ps /\ first_ok ps /\ tail_ok stop_text (lit "</v>") /\
+  parse_value named stop_text (sx_value (fun _ => []) (chain_rev (rev ps)) ++ lit "</v>") = (RD (chain_rev (rev ps)) true, lit "</v>").
+Proof.
+  cbn zeta. split; [cbn; repeat split; try discriminate; reflexivity|].
+  split; [exact I|]. split; [right; reflexivity|]. vm_compute. reflexivity.
+Qed.
